@@ -38,12 +38,12 @@ def mode_a():
 def gen_cases(tier, seed):
     import random
     rnd = random.Random(seed)
-    n = 96 if tier == "quick" else 1600
+    n = 480 if tier == "quick" else 6000
     cases = []
     for i in range(n):
         cases.append({"id": i, "seed": seed, "writers": rnd.choice([1, 2, 3]), "readers": rnd.choice([1, 2, 3]),
                       "ops": rnd.choice([6, 10, 16]), "flushes": rnd.choice([1, 2, 4]), "compacts": rnd.choice([0, 1, 3]),
-                      "close_mid": rnd.random() < 0.25, "settle": False})
+                      "close_mid": rnd.random() < 0.25, "settle": False, "reopen_first": rnd.random() < 0.5})
     return cases
 
 
@@ -78,31 +78,57 @@ def validate(runs):
         shutil.rmtree(tmp, ignore_errors=True)
 
 
-def run_cases(cases):
+def f_c04_1_symptom(err):
+    """symptoms of known finding F-C04-1 in the stderr of a harness process that died"""
+    if "WATCHDOG" in err and "tsspFile).Close" in err and "WaitGroup).Wait" in err:
+        return "Engine.Close hangs in tsspFile.Close (file reference never released)"
+    if "negative WaitGroup counter" in err and "tsspFile).Unref" in err:
+        return "panic: negative WaitGroup counter in tsspFile.Unref (file reference released twice)"
+    return None
+
+
+def run_cases(cases, cmd="record-view", watchdog=90):
     vh = vlib.build_vh()
-    results, errs = vlib.run_vh_parallel(vh, ["record-view"], cases, nproc=8)
-    hangs = [r for r in results if r.get("hang")]
-    if errs and not hangs:
-        # a harness process died: a Go panic inside openGemini is a crash of the store (a violation), anything else is infra
-        rc, err = errs[0]
-        if "panic:" in err and "/repo/" in err.replace(vlib.REPO, "/repo"):
-            return results, [{"id": -1, "ok": False, "detail": "store process crashed during concurrent operation:\n" + err[-3000:], "crash": True}]
-        raise vlib.Infra(f"harness process failed: {errs[0]}")
-    return results, []
+    results, errs = vlib.run_vh_parallel(vh, [cmd], cases, nproc=8, env={"VH_WATCHDOG": str(watchdog)})
+    died = []
+    for rc, err in errs:
+        sym = f_c04_1_symptom(err)
+        if sym:
+            died.append({"id": -1, "ok": False, "symptom": sym, "detail": sym + "\n" + err[-1500:]})
+        elif "WATCHDOG" in err:
+            died.append({"id": -1, "ok": False, "hang": True, "detail": "deadlock: operations/close did not finish\n" + err[-6000:]})
+        elif "panic:" in err or "fatal error:" in err:
+            died.append({"id": -1, "ok": False, "crash": True, "detail": "store process crashed:\n" + err[-6000:]})
+        else:
+            raise vlib.Infra(f"harness process failed: rc={rc} {err[-3000:]}")
+    results = [r for r in results if not r.get("hang")]
+    return results, died
 
 
 def run(tier, seed):
     t0 = time.time()
     a = mode_a()
     cases = gen_cases(tier, seed)
-    results, crashes = run_cases(cases)
+    # runs that start on a fresh shard cannot hit the Sequencer-reload window of F-C04-1; runs that start on a
+    # re-opened shard can. They are executed separately so that a process death can be attributed.
+    fresh = [c for c in cases if not c["reopen_first"]]
+    reopened = [c for c in cases if c["reopen_first"]]
+    res_f, died_f = run_cases(fresh)
+    res_r, died_r = run_cases(reopened, watchdog=30)
+    results = res_f + res_r
     infra = [r for r in results if r.get("infra")]
     if infra:
         raise vlib.Infra(f"harness infra error: {infra[0]}")
     open_ids = {f["id"] for f in vlib.load_known(PROP)}
-    bad = list(crashes)
+    bad = list(died_f)
     known_n = 0
     known_ex = ""
+    for d in died_r:
+        if d.get("symptom") and "F-C04-1" in open_ids:
+            known_n += 1
+            known_ex = known_ex or d["symptom"]
+        else:
+            bad.append(d)
     good = []
     for r in results:
         if r.get("hang"):
@@ -127,6 +153,30 @@ def run(tier, seed):
                 bad.append(r)
                 continue
         good.append(r)
+    # directed reproduction of F-C04-1: the recorded history, without waiting for the Sequencer reload
+    dstat = {"runs": 0, "observed": 0}
+    hp = os.path.join(vlib.ROOT, "selftest", "histories", "F-C04-1.json")
+    if "F-C04-1" in open_ids and os.path.exists(hp):
+        base = json.load(open(hp))
+        n = 320 if tier == "quick" else 3000
+        dcases = [dict(base, id=100000 + i) for i in range(n)]
+        dres, ddied = run_cases(dcases, cmd="replay-layout", watchdog=25)
+        dstat["runs"] = len(dres)
+        for d in ddied:
+            if d.get("symptom"):
+                dstat["observed"] += 1
+                known_n += 1
+                known_ex = known_ex or d["symptom"]
+            else:
+                bad.append(d)
+        for r in dres:
+            if r.get("known") == "F-C04-1" or r.get("known_read_errors"):
+                dstat["observed"] += 1
+                known_n += 1
+                known_ex = known_ex or r.get("detail", "")[:400]
+            elif not r["ok"]:
+                r["detail"] = "directed F-C04-1 history diverged in another way: " + r.get("detail", "")
+                bad.append(r)
     if known_n:
         print(f"KNOWN-FINDING: property={PROP} F-C04-1 observed {known_n} times, e.g. {known_ex[:300]}")
     tstats = {"histories": len(good), "events": sum(len(r["events"]) for r in good)}
@@ -159,7 +209,7 @@ def run(tier, seed):
                 "the middle); non-trivial = histories with at least one completed query that TLC validated",
         "queries": sum(r.get("queries", 0) for r in results), "writes": sum(r.get("writes", 0) for r in results),
         "close_mid_runs": sum(1 for c in cases if c["close_mid"]),
-        "known_finding_observations": known_n,
+        "known_finding_observations": known_n, "directed_F_C04_1": dstat,
         "trace_validation": tstats, "tlc": {"design": a},
         "exhaustive": False,
     }
